@@ -21,10 +21,9 @@ structure OpSem (V : Type) where
   smul_smul : ∀ a b x, smul a (smul b x) = smul (a * b) x
   mem_smul : ∀ s a x, mem s x → mem s (smul a x)
   /-- `IdentityOperator.mv` returns its argument -/
-  identity_law : ∀ o, o.isIdentity = true → Op.inS o = Op.outS o ∧ ∀ x, mem (Op.inS o) x → den o x = x
+  identity_law : ∀ o, o.isIdentity = true → ∀ x, mem (Op.inS o) x → den o x = x
   /-- `HomothetyOperator.mv` multiplies every leaf by `value` -/
-  homothety_law : ∀ o, o.isHomothety = true →
-    Op.inS o = Op.outS o ∧ ∀ x, mem (Op.inS o) x → den o x = smul (homValue o) x
+  homothety_law : ∀ o, o.isHomothety = true → ∀ x, mem (Op.inS o) x → den o x = smul (homValue o) x
   /-- every operator commutes with scalar multiplication (C04: linearity) -/
   homogeneous : ∀ o a x, mem (Op.inS o) x → den o (smul a x) = smul a (den o x)
 
@@ -38,6 +37,17 @@ def toSem : Sem Op V Struct := ⟨L.den, Op.inS, Op.outS, L.mem, L.honest⟩
 @[simp] theorem toSem_den (o : Op) : L.toSem.den o = L.den o := rfl
 @[simp] theorem toSem_mem (s : Struct) : L.toSem.mem s = L.mem s := rfl
 
+/-- identity and scalar operators are square by construction (`@square`: `out_structure = in_structure`) -/
+theorem identity_square (o : Op) (h : o.isIdentity = true) : Op.inS o = Op.outS o := by
+  cases o with
+  | leaf u c p => cases c <;> simp_all [isIdentity, isLeafCls, Op.inS, Op.outS, squareLeaf]
+  | _ => simp [isIdentity, isLeafCls] at h
+
+theorem homothety_square (o : Op) (h : o.isHomothety = true) : Op.inS o = Op.outS o := by
+  cases o with
+  | leaf u c p => cases c <;> simp_all [isHomothety, isLeafCls, Op.inS, Op.outS, squareLeaf]
+  | _ => simp [isHomothety, isLeafCls] at h
+
 /-- `IdentityRule.apply` preserves typing and denotation -/
 theorem identityRule_sound : L.toSem.ListSound identityRule := by
   intro ops
@@ -50,7 +60,8 @@ theorem identityRule_sound : L.toSem.ListSound identityRule := by
     by_cases hid : o.isIdentity = true
     · have hrule : identityRule (o :: os) = identityRule os := by
         simp [identityRule, List.filter, hid]
-      obtain ⟨hsq, hden⟩ := L.identity_law o hid
+      have hsq := identity_square o hid
+      have hden := L.identity_law o hid
       rw [hrule]
       simp only [toSem_outS, toSem_inS] at h1 ihw
       constructor
@@ -108,7 +119,8 @@ theorem strip_sound (ops : List Op) (s t : Struct) (h : L.toSem.WT ops s t) :
     obtain ⟨h1, h2⟩ := h
     obtain ⟨ihw, iha⟩ := ih _ h2
     by_cases hh : o.isHomothety = true
-    · obtain ⟨hsq, hden⟩ := L.homothety_law o hh
+    · have hsq := homothety_square o hh
+      have hden := L.homothety_law o hh
       have hs : strip (o :: os) = strip os := by simp [strip, List.filter, hh]
       rw [hs]
       simp only [toSem_outS, toSem_inS] at h1 ihw
@@ -167,7 +179,7 @@ theorem homothetyRule_sound : L.toSem.ListSound homothetyRule := by
         split
         · -- scalar on the left
           obtain ⟨hH, hI, hO, hV⟩ := mkHomothety_law (valProd (first :: o2 :: rest)) (Op.outS first)
-          obtain ⟨_, hden⟩ := L.homothety_law _ hH
+          have hden := L.homothety_law _ hH
           refine ⟨⟨by rw [toSem_outS, hO, hfirst], by rw [toSem_inS, hI, hfirst]; exact hsw⟩, ?_⟩
           intro x hx
           have hm := L.toSem.WT_mem _ _ _ hsw x hx
@@ -176,7 +188,7 @@ theorem homothetyRule_sound : L.toSem.ListSound homothetyRule := by
           rw [hden _ (by rw [hI, hfirst]; exact hm), hV]
         · -- scalar on the right
           obtain ⟨hH, hI, hO, hV⟩ := mkHomothety_law (valProd (first :: o2 :: rest)) (Op.inS last)
-          obtain ⟨_, hden⟩ := L.homothety_law _ hH
+          have hden := L.homothety_law _ hH
           constructor
           · rw [L.toSem.WT_append]
             refine ⟨s, ?_, hsw⟩
@@ -265,7 +277,7 @@ theorem algebraicReduction_sound (red : Op → Except PyErr Op)
         have hO : Op.outS (mkIdentity (inSLast ops)) = s := by simp [mkIdentity, Op.outS, hin]
         refine ⟨⟨by rw [toSem_outS, hO, w3], by rw [toSem_inS, hI]; rfl⟩, fun x hx => ?_⟩
         simp only [Sem.app, toSem_den]
-        rw [hidl.2 x (by rw [hI]; exact hx)]
+        rw [hidl x (by rw [hI]; exact hx)]
         exact hall x hx
       · simp only [Except.ok.injEq] at hres; subst hres
         exact ⟨w3, hall⟩
